@@ -80,7 +80,7 @@ Definition int_cmp (l : gval) (r : operand) : option comparison + operr :=
   | GNil => inr EMissing
   | GF64 f =>
     match to_int_right r with
-    | Some z => inl (f64_compare_Z f z)
+    | Some z => inl (compare_float_to_int f z)
     | None => inr EInvalidOperand
     end
   | _ =>
